@@ -439,3 +439,51 @@ func c15items(c *Ctx) {
 			sprintf("what is recorded is not what was validated: recorded info is NewQuotaInfoFromQuota(the new quota)=%v, self-item check got the new quota=%v, topology check got the recorded info=%v, both precede the store=%v", built, selfArg, topoArg, order))
 	}
 }
+
+// c15sums: a failed min-sum comparison always rejects; "is a parent" is read from its own label only.
+func c15sums(c *Ctx) {
+	r := c.R
+	r.Decides("in checkMinQuotaValidate a failed comparison (siblings' mins plus own min against the parent's min; children's mins against the own min) leads to error returns only; IsParentQuota is true only for the is-parent label (the update shortcut compares that label, so any other source of 'is a parent' can flip without validation)")
+	r.Rule("PATH(min sums): in quotaTopology.checkMinQuotaValidate, from behind each util.LessThanOrEqualCompletely call, assuming it returned false, only returns with a non-nil error are reachable")
+	if fn := c.Fn(quotaWebhookPkg, "quotaTopology", "checkMinQuotaValidate"); fn != nil {
+		n := 0
+		for _, cl := range an.Calls(fn, false) {
+			call, ok := cl.(*ssa.Call)
+			if !ok || an.ShortCallee(&call.Call) != "LessThanOrEqualCompletely" {
+				continue
+			}
+			n++
+			good, why := onlyErrors(fn, an.After(call), an.Facts{call: an.False}, nil)
+			r.Check(good, "PATH", sprintf("%s/sum-exceeded=>error#%d", fkey(fn), n), c.InstrPos(call), "rejected", "a min-sum comparison that failed does not always reject the request: "+why)
+		}
+		r.Floor("PATH", "min-sum comparisons", n, 2)
+	}
+	r.Rule("PATH(is-parent source): extension.IsParentQuota returns true only when the comparison of the is-parent label with \"true\" holds")
+	if fn := c.Fn("apis/extension", "", "IsParentQuota"); fn != nil {
+		f := an.Facts{}
+		for _, b := range fn.Blocks {
+			for _, in := range b.Instrs {
+				if bo, ok := in.(*ssa.BinOp); ok && (bo.Op == token.EQL || bo.Op == token.NEQ) {
+					if s, isC := constString(bo.Y); isC && s == "true" {
+						if bo.Op == token.EQL {
+							f[bo] = an.False
+						} else {
+							f[bo] = an.True
+						}
+					}
+				}
+			}
+		}
+		reach := an.Explore(fn, nil, f, nil)
+		ok, n := len(f) > 0, 0
+		for _, ret := range reach.Returns() {
+			for _, alt := range reach.Alts(ret) {
+				n++
+				if reach.EvalAlt(alt, 0) != an.False {
+					ok = false
+				}
+			}
+		}
+		r.Check(ok && n > 0, "PATH", fkey(fn)+"/only-the-label", c.Pos(fn.Pos()), "false unless the is-parent label says true", "IsParentQuota can be true without the is-parent label: the admission shortcut for 'nothing relevant changed' does not look at the other source, so 'is a parent' can be flipped without validation")
+	}
+}
